@@ -780,8 +780,13 @@ func (bc *BlockChain) WriteBlockWithoutState(block *types.Block) error {
 	bc.mu.Lock()
 	defer bc.mu.Unlock()
 
-	//write
-	rawdb.WriteBlock(bc.db, block)
+	// write header and body in one batch: a body without its header must never be visible after a crash
+	// (HasBlock only looks at the body)
+	blockBatch := bc.db.NewBatch()
+	rawdb.WriteBlock(blockBatch, block)
+	if err := blockBatch.Write(); err != nil {
+		return err
+	}
 
 	logging.Info("WriteBlockWithoutState.", "Height", block.NumberU64(), "Hash", block.Hash().String())
 
@@ -796,8 +801,12 @@ func (bc *BlockChain) WriteBlockWithState(block *types.Block, state *state.State
 	bc.mu.Lock()
 	defer bc.mu.Unlock()
 
-	//write
-	rawdb.WriteBlock(bc.db, block)
+	// write header and body in one batch (see WriteBlockWithoutState)
+	blockBatch := bc.db.NewBatch()
+	rawdb.WriteBlock(blockBatch, block)
+	if err := blockBatch.Write(); err != nil {
+		return err
+	}
 
 	//db commit
 	root, valRoot, stakingRoot, err := state.Commit(true)
